@@ -544,3 +544,145 @@ def apply_global(crate):
         by.setdefault(b.path, b)
     crate.by_path = by
 
+
+
+# ------------------------------------------------------------------------------------------------ awaited private async helpers
+
+def _await_pattern(blocks, b0):
+    """for `helper(args).await` starting at the call block b0: (poll block, switch block, ready target) or None"""
+    t = blocks[b0]['term']
+    cur = t.get('t')
+    fut = t['dest']['l']
+    into = None
+    for _ in range(10):
+        if cur is None:
+            return None
+        bl = blocks[cur]
+        tt = bl['term']
+        if tt['k'] == 'call':
+            nm = (tt.get('callee') or {}).get('name')
+            if nm == 'into_future':
+                a = (tt['args'][0].get('place') or {}) if tt.get('args') else {}
+                if a.get('l') != fut:
+                    return None
+                into = cur
+            elif nm == 'poll' and tt.get('ds') == 'Await':
+                if into is None:
+                    return None
+                sw = tt.get('t')
+                if sw is None or blocks[sw]['term']['k'] != 'switch':
+                    return None
+                arms = {a[0]: a[1] for a in blocks[sw]['term']['arms']}
+                if 0 not in arms:
+                    return None
+                return cur, sw, arms[0]
+            elif nm not in ('new_unchecked', 'get_context'):
+                return None
+            cur = tt.get('t')
+        elif tt['k'] == 'goto':
+            cur = tt['t']
+        else:
+            return None
+    return None
+
+
+def _subst_upvars(x, self_local, up):
+    """places `(_self.k).rest` -> `_up[k].rest`"""
+    if isinstance(x, list):
+        for y in x:
+            _subst_upvars(y, self_local, up)
+        return
+    if not isinstance(x, dict):
+        return
+    if x.get('l') == self_local and 's' in x and x.get('p') and isinstance(x['p'][0], dict) and isinstance(x['p'][0].get('f'), int) and x['p'][0]['f'] in up:
+        k = x['p'][0]['f']
+        x['l'] = up[k]
+        x['p'] = list(x['p'][1:]) or None
+        x['s'] = '_%d' % up[k] + ('~' if x['p'] else '')
+    for v in x.values():
+        if isinstance(v, (dict, list)):
+            _subst_upvars(v, self_local, up)
+
+
+def expand_async(crate, body, exclude=(), depth=2):
+    """body with the awaited calls of private async helper functions (same module scope, not in `exclude`) replaced by the helper's
+    coroutine body: the helper's upvars are the call's arguments, its yields stay yields, its return continues at the Ready arm of the
+    await.  Used where a rule anchors on one coroutine (Server::run, the call handler) and a maintainer may move part of it into an
+    `async fn` helper."""
+    from mir import Body
+    by = {}
+    for b in crate.raw_bodies:
+        by.setdefault(b.path, b)
+    nb_by = crate.by_path
+    d = body.d
+    changed = False
+    for _round in range(depth):
+        blocks = [dict(x) for x in d['blocks']]
+        locals_ = list(d['locals'])
+        did = False
+        i = 0
+        n0 = len(blocks)
+        while i < n0:
+            t = blocks[i]['term']
+            if t['k'] == 'call' and not blocks[i].get('cleanup'):
+                p = callee_path(t)
+                shell = by.get(p) if p else None
+                copath = (p + '::{closure#0}') if p else None
+                co = nb_by.get(copath) if copath else None
+                if shell is not None and co is not None and co.is_coroutine and copath not in exclude and p not in exclude \
+                        and shell.d.get('vis') == 'restricted' and shell.d.get('impl_trait') is None and _same_module_scope(shell.file, body.file) \
+                        and not (t['dest'].get('p')) and len(t.get('args') or []) == shell.arg_count:
+                    pat = _await_pattern(blocks, i)
+                    if pat is not None:
+                        pollb, swb, ready = pat
+                        poll_dest = blocks[pollb]['term']['dest']
+                        hd = co.d
+                        lo, bo = len(locals_), len(blocks)
+                        for l in hd['locals']:
+                            l2 = dict(l)
+                            l2['i'] = l['i'] + lo
+                            l2['from'] = copath
+                            if l2.get('name'):
+                                l2['name'] = '%s@%s' % (l2['name'], p.split('::')[-1])
+                            locals_.append(l2)
+                        line = t.get('line')
+                        # one fresh local per upvar, initialised from the call's argument; the helper's `(_1.k)` places become these locals
+                        glue = []
+                        up = {}
+                        for k_, a_ in enumerate(t.get('args') or []):
+                            li = len(locals_)
+                            aty = ((a_.get('place') or {}).get('ty')) or a_.get('ty') or ''
+                            locals_.append({'i': li, 'ty': aty, 'mut': False, 'user': False, 'from': copath, 'upvar': k_})
+                            up[k_] = li
+                            glue.append({'k': 'assign', 'place': {'l': li, 's': '_%d' % li, 'ty': aty}, 'rv': {'k': 'use', 'op': a_}, 'line': line, 'glue': 'upvar'})
+                        for hb_blk in hd['blocks']:
+                            nb = _relabel(hb_blk, lo, bo)
+                            _subst_upvars(nb, lo + 1, up)
+                            nb['from'] = copath
+                            nb['file'] = hb_blk.get('file') or hd.get('file')
+                            tt = nb['term']
+                            if tt['k'] == 'return':
+                                st = list(nb['stmts'])
+                                ret = {'l': lo, 's': '_%d' % lo, 'ty': hd['locals'][0].get('ty', '')}
+                                st.append({'k': 'assign', 'place': poll_dest,
+                                           'rv': {'k': 'aggr', 'kind': 'adt', 'adt': 'std::task::Poll', 'variant': 'Ready', 'fields': ['0'], 'ops': [{'k': 'move', 'place': ret}]},
+                                           'line': tt.get('line'), 'glue': 'ret'})
+                                nb['stmts'] = st
+                                nb['term'] = {'k': 'goto', 't': ready, 'line': tt.get('line'), 'glue': 'ret'}
+                            elif tt['k'] == 'coroutine_drop':
+                                nb['term'] = {'k': 'unreachable', 'line': tt.get('line')}
+                            blocks.append(nb)
+                        blk = dict(blocks[i])
+                        blk['stmts'] = list(blk['stmts']) + glue
+                        blk['term'] = {'k': 'goto', 't': bo, 'line': line, 'glue': 'await-call', 'inlined_call': t}
+                        blocks[i] = blk
+                        did = True
+            i += 1
+        if not did:
+            break
+        d = dict(d)
+        d['blocks'] = blocks
+        d['locals'] = locals_
+        d['inlined'] = list(d.get('inlined') or []) + ['async']
+        changed = True
+    return Body(d, crate) if changed else body
